@@ -13,7 +13,7 @@ import functools
 from .values import sig
 from .driver import make_exc
 
-ASYNC_FLAVOURS = ("agen", "aclass", "aclass_noclose", "aplain", "agenlike", "aeager", "aproxy", "areiter", "alateclose")
+ASYNC_FLAVOURS = ("agen", "aclass", "aclass_noclose", "aplain", "agenlike", "aeager", "aeagerstop", "aproxy", "areiter", "alateclose")
 SYNC_FLAVOURS = ("list", "seq", "iter", "tuple", "tuplesub", "reiter", "sgen")
 SRC_FLAVOURS = ASYNC_FLAVOURS + SYNC_FLAVOURS
 FN_FLAVOURS = ("def", "async", "partial", "obj", "objaw", "falsyobj", "eqobj", "unhashobj", "aeqobj", "gencoro", "classaw")
@@ -380,6 +380,19 @@ class AEagerSource(AClassSource):
         return _Ready(self, item, not ok)
 
 
+class AEagerStopSource(AEagerSource):
+    """like AEagerSource, but the end is reported by the plain ``__anext__`` method itself (it raises
+    StopAsyncIteration when CALLED instead of returning an awaitable that raises): fine for ``async for``"""
+
+    def __anext__(self):
+        if not self._begin():
+            raise StopAsyncIteration
+        ok, item = self._finish()
+        if not ok:
+            raise StopAsyncIteration
+        return _Ready(self, item, False)
+
+
 class AGenLikeSource(AClassSource):
     """Class based iterator offering the whole generator interface (aclose, asend, athrow) without being
     an async generator.  The library has no business sending or throwing into a source it was given:
@@ -501,6 +514,7 @@ _SRC_CLASSES = {
     "aplain": APlainSource,
     "agenlike": AGenLikeSource,
     "aeager": AEagerSource,
+    "aeagerstop": AEagerStopSource,
     "aproxy": AProxySource,
     "alateclose": ALateCloseSource,
     "areiter": AReiterSource,
